@@ -195,7 +195,8 @@ func (g *vh20Gate) GetAttr(req p9.AttrMask) (p9.QID, p9.AttrMask, p9.Attr, error
 			}
 		}
 	}
-	return p9.QID{Type: p9.TypeRegular, Path: 1000 + uint64(group)}, req, p9.Attr{Mode: p9.ModeRegular | 0o444}, nil
+	// Size tells the caller which group (= which source path) this call belonged to
+	return p9.QID{Type: p9.TypeRegular, Path: 1000 + uint64(group)}, req, p9.Attr{Mode: p9.ModeRegular | 0o444, Size: uint64(group)}, nil
 }
 
 func vh20Probe(t *testing.T, out *vhfsOut) {
@@ -221,54 +222,65 @@ func vh20Probe(t *testing.T, out *vhfsOut) {
 		t.Fatal(err)
 	}
 	atomic.StoreInt32(&gate.on, 1)
-	res := make([][]uint64, workers)
+	type pr struct{ group, path uint64 }
+	res := make([][]pr, workers)
 	var wg sync.WaitGroup
-	stop := time.Now().Add(20 * time.Second)
+	limit := 6 * time.Second
+	if vhfsThorough() {
+		limit = 20 * time.Second
+	}
+	stop := time.Now().Add(limit)
 	for w := 0; w < workers; w++ {
 		w := w
-		res[w] = make([]uint64, 0, rounds)
+		res[w] = make([]pr, 0, rounds)
 		wg.Add(1)
 		go func() {
 			defer wg.Done()
 			for r := 0; r < rounds && time.Now().Before(stop); r++ {
-				q, _, _, err := wrapped.GetAttr(p9.AttrMask{Mode: true})
+				q, _, attr, err := wrapped.GetAttr(p9.AttrMask{Mode: true, Size: true})
 				if err != nil {
 					t.Errorf("probe getattr: %v", err)
 					return
 				}
-				res[w] = append(res[w], q.Path)
+				res[w] = append(res[w], pr{attr.Size, q.Path})
 			}
 		}()
 	}
 	wg.Wait()
 	atomic.StoreInt32(&gate.on, 0)
-	// Workers advance in lock step (a group completes only when all have arrived), so
-	// res[w][r] belongs to group r.  Report the first rounds and every round with a disagreement.
+	// Every result is keyed by the group the gate put the call in (reported in Attr.Size), so a worker
+	// that left a gate on its deadline cannot be confused with another group.  Report the first groups
+	// and every group with a disagreement.
 	type ob struct {
 		Name string `json:"name"`
 		Path uint64 `json:"path"`
 	}
-	n := len(res[0])
+	byGroup := map[uint64][]uint64{}
+	var order []uint64
 	for _, x := range res {
-		if len(x) < n {
-			n = len(x)
+		for _, e := range x {
+			if _, ok := byGroup[e.group]; !ok {
+				order = append(order, e.group)
+			}
+			byGroup[e.group] = append(byGroup[e.group], e.path)
 		}
 	}
+	n := len(order)
 	var all []ob
 	bad := 0
-	for r := 0; r < n; r++ {
+	for i, g := range order {
 		differ := false
-		for w := 1; w < workers; w++ {
-			if res[w][r] != res[0][r] {
+		for _, p := range byGroup[g] {
+			if p != byGroup[g][0] {
 				differ = true
 			}
 		}
 		if differ {
 			bad++
 		}
-		if r < 40 || (differ && bad <= 20) {
-			for w := 0; w < workers; w++ {
-				all = append(all, ob{fmt.Sprintf("gate#%d", r), res[w][r]})
+		if i < 40 || (differ && bad <= 20) {
+			for _, p := range byGroup[g] {
+				all = append(all, ob{fmt.Sprintf("gate#%d", g), p})
 			}
 		}
 	}
